@@ -195,7 +195,9 @@ func newPointerIterator(ctx *Context, pointerType reflect.Type) IteratorFunction
 		if context.TryAddLocalReference(v) {
 			return
 		}
+		context.descend()
 		iterate(context, v.Elem())
+		context.ascend()
 	}
 }
 
@@ -211,12 +213,14 @@ func newSliceOrArrayAsListIterator(ctx *Context, sliceType reflect.Type) Iterato
 			return
 		}
 
+		context.descend()
 		context.EventReceiver.OnList()
 		length := v.Len()
 		for i := 0; i < length; i++ {
 			iterate(context, v.Index(i))
 		}
 		context.EventReceiver.OnEndContainer()
+		context.ascend()
 	}
 }
 
@@ -233,6 +237,7 @@ func newMapIterator(ctx *Context, mapType reflect.Type) IteratorFunction {
 			return
 		}
 
+		context.descend()
 		context.EventReceiver.OnMap()
 		iter := common.MapRange(v)
 		for iter.Next() {
@@ -240,6 +245,7 @@ func newMapIterator(ctx *Context, mapType reflect.Type) IteratorFunction {
 			iterateValue(context, iter.Value())
 		}
 		context.EventReceiver.OnEndContainer()
+		context.ascend()
 	}
 }
 
